@@ -243,6 +243,8 @@ pub struct Shard {
     pub violations: Vec<Violation>,
     pub deadline: Instant,
     pub max_samples: usize,
+    /// cap on the number of distinct signatures remembered per shard (memory bound)
+    pub max_distinct: usize,
     pub notes: Vec<String>,
 }
 
@@ -260,6 +262,7 @@ impl Shard {
             violations: vec![],
             deadline,
             max_samples: 4,
+            max_distinct: 400_000,
             notes: vec![],
         }
     }
@@ -270,7 +273,7 @@ impl Shard {
     /// Record a non-trivial case by its behaviour signature (anything hashable).
     #[inline]
     pub fn nontrivial<T: Hash + ?Sized>(&mut self, sig: &T) {
-        if self.distinct.len() < 4_000_000 {
+        if self.distinct.len() < self.max_distinct {
             self.distinct.insert(h64(sig));
         }
     }
